@@ -195,6 +195,66 @@ def rf9(run):
             if not ok:
                 viol(r, 'extension opcode', '%s needs %s %s (%s) but is encoded as [%s]' % (code, 'movsx' if sp.signed else 'movzx/mov', want,
                                                                                           'sign' if sp.signed else 'zero', ' '.join(i_)))
+    # (m) integer memory operands: size class and extension follow the operand the opcode reads
+    #     The validator accepts memory of *any* integer type for an INT operand, so a class that also matches a narrower or a
+    #     differently signed memory type is live (FP classes are pinned by the validator and are not judged here).
+    modes = {r['code']: r['modes'] for r in descs}
+    ANY_SIZE = {'MIR_BT', 'MIR_BF', 'MIR_BTS', 'MIR_BFS'}  # zero test: every extension of a narrow value keeps zero-ness
+    EXTW = {'MIR_EXT8': 0, 'MIR_EXT16': 1, 'MIR_EXT32': 2, 'MIR_UEXT8': 0, 'MIR_UEXT16': 1, 'MIR_UEXT32': 2}
+    for r in rows:
+        code = r['code']
+        toks = pat_tokens(r['pat'])
+        if toks is None or code not in modes or '$' in toks or code in ANY_SIZE:
+            continue
+        sp = SPEC.parse(code[4:])
+        ins = insns_of(r['rep'])
+        enc = ' ' + ' ; '.join(' '.join(i_) for i_ in ins) + ' '
+        for k, t in enumerate(toks):
+            m = re.fullmatch(r'm([su]?)([0-3])', t)
+            if not m or k >= len(modes[code]):
+                continue
+            if modes[code][k][0] != 'MIR_OP_INT':
+                continue
+            sign, size = m.group(1), int(m.group(2))
+            if code == 'MIR_MOV':
+                if k == 0:
+                    # store: the stored width is the memory width
+                    want = {0: ('Z', '88'), 1: ('Y', '89'), 2: ('Y', '89'), 3: ('X', '89')}[size]
+                    imm = any(re.fullmatch(r'[iI][0-3]?\d?|J\d', x) for i_ in ins for x in i_)
+                    ok = imm or any(i_[0] == want[0] or (size == 1 and i_[0] == '66') for i_ in ins) and (' %s ' % want[1]) in enc
+                    if size == 1:
+                        ok = ok and ' 66 ' in enc
+                    run.ob(rule, ('mov-store', r['line']), ok, {'pattern': r['pat'], 'encoding': r['rep']})
+                    if not ok:
+                        viol(r, 'store width', 'a store to %d-byte memory must use the %d-byte mov form' % (1 << size, 1 << size))
+                else:
+                    if size == 3:
+                        continue
+                    ok = sign in ('s', 'u')
+                    if ok:
+                        wantenc = (ISA.MOVSX if sign == 's' else ISA.MOVZX)[8 << size]
+                        ok = (' %s ' % wantenc) in enc and ((' X ' in enc or enc.startswith(' X ')) if not (sign == 'u' and size == 2) else not enc.startswith(' X '))
+                    run.ob(rule, ('mov-load', r['line']), ok, {'pattern': r['pat'], 'encoding': r['rep'], 'class': t})
+                    if not ok:
+                        viol(r, 'load extension', 'a load from %s memory must %s-extend: class "%s" with encoding [%s] does not (a class '
+                             'without s/u matches both signednesses)' % (t, {'s': 'sign', 'u': 'zero'}.get(sign, 'sign- or zero'), t, r['rep']))
+                continue
+            if code in EXTW:
+                ok = size == EXTW[code]
+                run.ob(rule, ('ext-mem', r['line']), ok, {'opcode': code, 'class': t})
+                if not ok:
+                    viol(r, 'extension source size', '%s extends the low %d bits; a memory source of class %s reads %d bits' % (code, 8 << EXTW[code], t, 8 << size))
+                continue
+            w = sp.width if (sp is not None and sp.dom == 'i' and sp.width in (32, 64)) else 64
+            need = 3 if w == 64 else 2
+            ok = size == need
+            # a narrower source is acceptable only when its signedness is pinned and the conversion reads it with that signedness
+            if not ok and size == 2 and need == 3 and sign == 's' and sp is not None and sp.signed is not False:
+                ok = True
+            run.ob(rule, ('int-mem', r['line'], k), ok, {'opcode': code, 'operand': k, 'class': t, 'operand width': w})
+            if not ok:
+                viol(r, 'integer memory operand', 'operand %d of %s is a %d-bit integer; the pattern also matches %s%d-bit memory, whose '
+                     'upper bits the instruction [%s] does not extend the way a load would' % (k + 1, code, w, {'s': 'signed ', 'u': 'unsigned '}.get(sign, 'any '), 8 << size, r['rep']))
     # (n) FP less-than forms are rewritten before selection
     tm = gen.func('target_machinize')
     swapped = {}
